@@ -59,13 +59,13 @@ func Main(args []string) int {
 			files = append(files, filepath.Join(td, c))
 		}
 	}
-	feats := genlab.Features("paths/client", "paths/server", "client/request/validation", "server/response/validation")
+	feats := genlab.Features("paths/client", "paths/server", "client/request/validation", "server/response/validation", "ogen/otel")
 	jobs := []e3.SpecJob{{Key: "p0000", Spec: []byte(kvSpec), Opts: gen.Options{Generator: gen.GenerateOptions{Features: feats}}}}
 	pk := []servlab.C19Pkg{{Key: "p0000", Origin: "kv-spec", Calls: r.N(1600, 6000), Goroutines: 16, Rounds: r.N(6, 30), KV: true}}
 	for i, p := range files {
 		it := genlab.CorpusItem(p)
 		it.DefaultFeat = false
-		it.Features = []string{"paths/client", "paths/server", "client/request/validation", "server/response/validation"}
+		it.Features = []string{"paths/client", "paths/server", "client/request/validation", "server/response/validation", "ogen/otel"}
 		it.Convenient = "off"
 		key := fmt.Sprintf("p%04d", i+1)
 		j, err := e3.JobFromItem(key, it)
@@ -138,7 +138,7 @@ func Main(args []string) int {
 		}
 		r.Violate("data-race:"+key, "race detector report under concurrent use of generated client/server: "+key, map[string]any{"frames": key, "report": blk})
 	}
-	r.Assume("interleavings are those reached with 16-64 goroutines, GOMAXPROCS in {2,16}, PRNG-determined Gosched/sleep in the handler between request decoding and response encoding, an in-process wire transport and a real loopback connection pool; the evidence reports the maximum number of handler invocations in flight")
+	r.Assume("interleavings are those reached with 16-64 goroutines, GOMAXPROCS in {2,16}, PRNG-determined Gosched/sleep in the handler between request decoding and response encoding, an in-process wire transport and a real loopback connection pool, servers with and without a chain of yielding pass-through middlewares, OpenTelemetry instrumentation generated in (no-op providers); the evidence reports the maximum number of handler invocations in flight")
 	r.Assume("isolation oracle: the handler's answer is a deterministic function of the request it received (unique ids embedded in every string leaf), so each call's outcome under concurrency must equal its outcome in the preceding sequential run of the same list; key/value histories with unique written values are checked by porcupine per key against a register model (timeout = inconclusive)")
 	return r.Finish("driver built with -race from freshly generated packages (key/value spec with RE2 and look-ahead patterns, ogen's sample/parameters/requests specs with request and response validation on): a fixed list of calls (valid, hostile, validation-failing; all operations) run sequentially, then concurrently in PRNG order by many goroutines, outcomes compared call by call; key/value histories checked for linearizability. distinct = (package, transport, round, call) plus recorded key/value operations", 2000, false)
 }
